@@ -1,6 +1,8 @@
 //! Contains the functions to load Ledger file,
 //! with recursively resolving the `include` directives.
 
+#[cfg(okane_verif)]
+use crate::verif::{glob, std};
 use std::{
     borrow::Cow,
     collections::HashMap,
